@@ -108,12 +108,15 @@ def source_program(item, res, pi):
 def make_jobs(items, want, N, settings=None, timeout=150, extra=None):
     jobs = []
     for it in items:
+        st = dict(settings or {})
         j = {"kind": "analyze", "id": it["id"], "text": it["text"], "goals": it.get("goals") or "auto",
-             "points": it.get("points", "auto"), "N": N, "want": list(want), "settings": settings or {},
-             "timeout": timeout}
+             "points": it.get("points", "auto"), "N": N, "want": list(want),
+             "settings": {k: v for k, v in st.items() if not k.startswith("__")}, "timeout": timeout}
+        if st.get("__force_cyclic"):
+            j["force_cyclic"] = True
         if extra:
             j.update(extra)
-        for k in ("dparam", "term_goals", "stat_goals", "K"):
+        for k in ("dparam", "term_goals", "stat_goals", "K", "force_cyclic", "user_typed"):
             if k in it:
                 j[k] = it[k]
         jobs.append(j)
@@ -256,6 +259,7 @@ def b_normalized(ctx):
 def b_recs(ctx):
     """C03: every equation of every recurrence system, as expectation identity and pointwise"""
     seen = set()
+    eqs = []
     for g, go in ctx.res.get("goals", {}).items():
         recs = go.get("recs")
         if not recs:
@@ -266,10 +270,16 @@ def b_recs(ctx):
                 continue
             seen.add(key)
             lhs, rhsp = absyn.poly(eq["lhs"]), absyn.poly(eq["rhsp"])
-            ctx.claim(0, {"t": "mom", "pi": ctx.norm, "poly": lhs, "val": absyn.sc(eq["init"]) if not isinstance(eq["init"], list) else absyn.sc(eq["init"])[0], "tag": "init:" + key})
+            name = "*".join(f"{v}**{e}" if e != 1 else v for v, e in lhs[0][1]) if lhs else "0"
+            init = absyn.sc(eq["init"])
+            ctx.claim(0, {"t": "mom", "pi": ctx.norm, "poly": lhs, "val": init[0] if isinstance(init, tuple) else init,
+                          "tag": "init:" + name})
+            eqs.append({"lhs": lhs, "rhsp": rhsp, "tag": name})
             for n in range(1, ctx.N + 1):
-                ctx.claim(n, {"t": "recE", "pi": ctx.norm, "lhs": lhs, "rhsp": rhsp, "tag": "recE:" + key})
-                ctx.claim(n, {"t": "recpt", "pi": ctx.norm, "lhs": lhs, "rhsp": rhsp, "tag": "recpt:" + key})
+                ctx.claim(n, {"t": "recE", "pi": ctx.norm, "lhs": lhs, "rhsp": rhsp, "tag": "recE:" + name})
+    if eqs:
+        for n in range(1, ctx.N + 1):
+            ctx.claim(n, {"t": "recpts", "pi": ctx.norm, "eqs": eqs, "tag": "pointwise"})
     ctx.note("equations", len(seen))
 
 
@@ -314,3 +324,89 @@ def b_passes(ctx):
         for n in range(0, ctx.N + 1):
             ctx.claim(n, {"t": "equiv", "a": ctx.src, "b": idx, "va": common, "vb": common, "tag": name})
         ctx.note("passes_checked")
+
+
+def b_parse_equiv(ctx):
+    """C19: Polar's parse of the rendered text has the same law on the source variables as the abstract program"""
+    if ctx.it.get("T") is None or "parsed" not in ctx.res:
+        return
+    P = poisoned(absyn.prog(ctx.res["parsed"][ctx.pi]), set(ctx.srcP["vars"]))
+    idx = ctx.add_prog(P)
+    common = [v for v in ctx.srcP["vars"] if v in P["vars"]]
+    if len(common) != len(ctx.srcP["vars"]):
+        ctx.direct.append({"clause": "parse lost variables", "missing": sorted(set(ctx.srcP["vars"]) - set(P["vars"]))})
+    for n in range(0, ctx.N + 1):
+        ctx.claim(n, {"t": "equiv", "a": ctx.src, "b": idx, "va": common, "vb": common, "tag": "parse"})
+
+
+def b_term(ctx):
+    """C09: moment-given-termination sequence = E[M ; not guard] / P(not guard) for the source program"""
+    if ctx.res.get("stage"):
+        raise SkipTrace("refused")
+    P = ctx.srcP
+    if P["guard"] == ("true",):
+        raise SkipTrace("no_guard")
+    notg = ("not", P["guard"])
+    for g, to in ctx.res.get("term", {}).items():
+        if "values" not in to:
+            ctx.note("term_exception")
+            continue
+        poly = absyn.mono_of(g)
+        if any(v not in P["vars"] for v, _ in poly[0][1]):
+            continue
+        for n, val in enumerate(to["values"][ctx.pi][:ctx.N + 1]):
+            base = {"t": "cmom", "pi": ctx.src, "poly": poly, "cond": notg, "tag": g}
+            if "q" in val:
+                ctx.claim(n, dict(base, val=F(val["q"]), undef=0))
+            elif "undef" in val:
+                ctx.claim(n, dict(base, undef=1))
+            else:
+                ctx.note("term_other")
+                if "free" in val:
+                    ctx.direct.append({"clause": "free-symbol", "goal": g, "n": n, "polar_value": val})
+
+
+def b_sens(ctx):
+    """C10: both sensitivity methods equal the derivative of the exact moment w.r.t. the parameter
+    (dual-number part of Moment in the spec)"""
+    if ctx.res.get("stage"):
+        raise SkipTrace("refused")
+    P = ctx.srcP
+    for g, so in ctx.res.get("sens", {}).items():
+        poly = absyn.mono_of(g)
+        if any(v not in P["vars"] for v, _ in poly[0][1]):
+            continue
+        for method in ("diff_closed_form", "diff_recurrences"):
+            if method not in so:
+                ctx.note(method + "_exception")
+                continue
+            for n, val in enumerate(so[method][ctx.pi][:ctx.N + 1]):
+                if "q" in val:
+                    ctx.claim(n, {"t": "mom", "pi": ctx.src, "poly": poly, "val": F(val["q"]), "part": "b",
+                                  "tag": f"{method}:{g}"})
+                else:
+                    ctx.note("sens_" + next(iter(val)))
+                    if "free" in val:
+                        ctx.direct.append({"clause": "free-symbol", "goal": g, "n": n, "method": method, "polar_value": val})
+
+
+def b_stats(ctx):
+    """C11: central moments and cumulants from Polar's conversion formulas vs the definitions on the exact law"""
+    if ctx.res.get("stage"):
+        raise SkipTrace("refused")
+    P = ctx.srcP
+    for g, co in ctx.res.get("stats", {}).items():
+        poly = absyn.mono_of(g)
+        if any(v not in P["vars"] for v, _ in poly[0][1]):
+            continue
+        for kind, key in (("central", "centrals"), ("cumulant", "cumulants")):
+            if key not in co:
+                ctx.note("stats_exception")
+                continue
+            for k, vals in co[key].items():
+                for n, val in enumerate(vals[ctx.pi][:ctx.N + 1]):
+                    if "q" in val:
+                        ctx.claim(n, {"t": kind, "pi": ctx.src, "poly": poly, "k": int(k), "val": F(val["q"]),
+                                      "tag": f"{kind}{k}:{g}"})
+                    else:
+                        ctx.note("stats_" + next(iter(val)))
